@@ -1114,3 +1114,102 @@ def lin_form(**coeffs):
 def same_linear(a: T, b_form: dict) -> bool:
     la = linear(a)
     return la is not None and la == {k: v for k, v in b_form.items() if v}
+
+
+def implies(a: T, b: T, limit: int = 12, given=None) -> Optional[bool]:
+    """does the path condition `a` imply `b`?  Decided by enumerating the
+    truth values of the atoms of both (None beyond `limit` atoms); `given`
+    fixes atoms whose value is known."""
+    import itertools
+    ats = []
+    fixed = []
+    for x in tm.atoms(a) + tm.atoms(b):
+        g = given(x) if given is not None else None
+        if g is not None:
+            fixed.append((x, g))
+        elif not any(x is y for y in ats):
+            ats.append(x)
+    if len(ats) > limit:
+        return None
+    for vals in itertools.product((True, False), repeat=len(ats)):
+        def val(t, vals=vals):
+            for x, v in zip(ats, vals):
+                if t is x:
+                    return v
+            for x, v in fixed:
+                if t is x:
+                    return v
+            return None
+        if tm.fold(a, val) is True and tm.fold(b, val) is not True:
+            return False
+    return True
+
+
+def cli_namespace(prog, module_name: str, given=()):
+    """The argparse namespace of one parser module after parsing a command
+    line that gives exactly the *flag* options `given` (store_true /
+    store_false / store_const) and leaves every other optional argument out:
+    {dest: value term, or None where the value comes from the command line
+    (positionals) or from a default that is not a constant expression}.
+    argparse semantics: the first action added for a dest sets its default;
+    store_const without default= starts as None."""
+    import ast
+    from .interp import Interp, Frame
+    mod = prog.modules[module_name]
+    it = Interp(prog)
+    ns = {}
+    acts = {}
+    calls = [(n, o, k) for m, n, o, k in parser_arguments(
+        prog, lambda nm: nm == module_name)]
+    calls.sort(key=lambda c: (c[0].lineno, c[0].col_offset))
+
+    def ev(node):
+        try:
+            v = it.eval(node, Frame(None, mod, {}, {}, None, 99), tm.TRUE)
+        except Exception:
+            return None
+        v = it._refold(it.unname(v))
+        while v.op == "named":
+            v = v.args[1]
+        return v if v.op in ("const", "enum", "list", "tuple") else None
+    for n, opts, kws in calls:
+        d = kws.get("dest")
+        longs = [o for o in opts if o.startswith("--")]
+        if isinstance(d, ast.Constant):
+            dest = d.value
+        elif longs:
+            dest = longs[0][2:].replace("-", "_")
+        elif opts and not opts[0].startswith("-"):
+            ns.setdefault(opts[0], None)           # positional
+            continue
+        else:
+            continue
+        act = kws.get("action")
+        act = act.value if isinstance(act, ast.Constant) else (
+            "store" if act is None else "?")
+        dflt = kws.get("default")
+        if dflt is not None:
+            val = ev(dflt)
+        elif act == "store_true":
+            val = const(False)
+        elif act == "store_false":
+            val = const(True)
+        else:
+            val = tm.NONE
+        if dest not in ns:
+            ns[dest] = val
+        for o in opts:
+            acts[o] = (dest, act, kws)
+    for g in given:
+        if g not in acts:
+            return None
+        dest, act, kws = acts[g]
+        if act == "store_true":
+            ns[dest] = const(True)
+        elif act == "store_false":
+            ns[dest] = const(False)
+        elif act == "store_const" and kws.get("const") is not None:
+            ns[dest] = ev(kws["const"])
+        else:
+            return None
+    return ns
